@@ -76,16 +76,24 @@ Proof.
   rewrite (proj2 (sym_mac_ideal (sv_mac sv) fields _) eq_refl). exact Hd.
 Qed.
 
-Lemma challenge_proven_bool : forall sv host now p P vals,
+Lemma challenge_proven_exists : forall sv host now p P vals,
   (forall v t, In (Some v) [p_opaque P; p_sig P] -> pv_dec v = Some t -> In t vals) ->
-  challenge_proven sv host now p P -> proven sv host now vals p = true.
+  challenge_proven sv host now p P -> challenge_proven_in sv host now vals p = true.
 Proof.
   intros sv host now p P vals Hin (oq & sg & blob & s & sgt & Ho & Hs & Hdo & Hds & Ha & Htk & Hh & Ht & Hor).
-  unfold proven. apply orb_true_iff. left.
+  unfold challenge_proven_in.
   apply existsb_exists. exists blob. split; [apply (Hin oq); [rewrite Ho; cbn; tauto | exact Hdo]|].
   apply existsb_exists. exists sgt. split; [apply (Hin sg); [rewrite Hs; cbn; tauto | exact Hds]|].
   unfold challenge_proof. rewrite (authentic_own_state _ _ _ Ha), Htk, Hh, N.eqb_refl.
   apply Z.leb_le in Ht. rewrite Ht. cbn [negb andb]. apply sym_ideal. exact Hor.
+Qed.
+
+Lemma challenge_proven_bool : forall sv host now p P vals,
+  (forall v t, In (Some v) [p_opaque P; p_sig P] -> pv_dec v = Some t -> In t vals) ->
+  challenge_proven sv host now p P -> proven sv host now vals p = true.
+Proof.
+  intros sv host now p P vals Hin H. unfold proven. apply orb_true_iff. left.
+  exact (challenge_proven_exists sv host now p P vals Hin H).
 Qed.
 
 Lemma token_proven_bool : forall sv host now p P vals,
@@ -138,32 +146,3 @@ Definition model_case3 (mode : Z) (sv : server) (host : N) (now : Z) (fresh : N)
         Some (mkC3 1 sv host now fresh tr tbl hdr st (-1) pid out)
   end.
 
-Lemma z_of_on_nonneg : forall o, (0 <=? z_of_on o)%Z = true -> exists p, o = Some p /\ Z.to_N (z_of_on o) = p.
-Proof.
-  intros [p|] H; cbn [z_of_on] in *; [|discriminate]. exists p. split; [reflexivity | apply N2Z.id].
-Qed.
-
-Theorem monitor3_model : forall mode sv host now fresh tr tbl hdr c,
-  model_case3 mode sv host now fresh tr tbl hdr = Some c -> monitor3 c = [].
-Proof.
-  intros mode sv host now fresh tr tbl hdr c H. unfold model_case3 in H.
-  destruct (server_step_i sv host now fresh tbl hdr) as [r|] eqn:Es; [|discriminate].
-  destruct (mode =? 0)%Z.
-  - destruct r as [e|st pid out]; inversion H; subst; clear H; unfold monitor3, reported_obs;
-      cbn [c3_mode c3_o1 c3_pid c3_sv c3_host c3_now c3_tbl c3_hdr].
-    + rewrite Z.eqb_refl. destruct (ecls_code e =? 0)%Z eqn:E; [destruct e; discriminate | reflexivity].
-    + rewrite Z.eqb_refl. cbn [andb Z.eqb]. destruct (0 <=? z_of_on pid)%Z eqn:E; [|reflexivity].
-      destruct (z_of_on_nonneg _ E) as [p [-> Hp]]. rewrite Hp.
-      rewrite (server_step_proven _ _ _ _ _ _ _ p Es eq_refl). reflexivity.
-  - unfold http_response in H. destruct (negb (transport_status tr =? 0)%Z).
-    + inversion H; subst. reflexivity.
-    + destruct r as [e|st [p|] out].
-      * destruct e; try (inversion H; subst; reflexivity);
-          destruct (run_challenge_client sv host now fresh); inversion H; subst; reflexivity.
-      * inversion H; subst; clear H. unfold monitor3, reported_obs.
-        cbn [c3_mode c3_o1 c3_pid c3_sv c3_host c3_now c3_tbl c3_hdr].
-        replace (1 =? 0)%Z with false by reflexivity.
-        assert (E : (0 <=? Z.of_N p)%Z = true) by (apply Z.leb_le; lia). rewrite E, N2Z.id.
-        rewrite (server_step_proven _ _ _ _ _ _ _ p Es eq_refl). reflexivity.
-      * inversion H; subst. reflexivity.
-Qed.
